@@ -8,6 +8,8 @@ from sa.core import AnalysisError, call_name, kw, text
 
 
 class Callback:
+    call = None  # the _parse call this callback is handed to (None for default productions)
+
     def __init__(self, rel, owner_qual, key, expr, target, target_qual):
         self.rel = rel
         self.owner = owner_qual  # function containing the _parse call
@@ -52,6 +54,45 @@ def resolve(repo, m, fn, expr, clsname):
     raise AnalysisError(f'{m.rel}: unsupported callback expression {text(expr)}')
 
 
+def production_pairs(m, fn, prods):
+    """[(token type, callback expression)] of a productions argument: a dict literal, or a name
+    bound once to a dict literal in the function and then filled with `name[k] = v` stores
+    (k a constant, or the variable of a `for` over a resolvable collection of constants) and
+    `name.update({...})`.  None when the shape is not recognised."""
+    from sa.core import resolve_collection
+
+    def of_dict(d):
+        return [((k.value if isinstance(k, ast.Constant) else text(k)), v) for k, v in zip(d.keys, d.values)]
+
+    if isinstance(prods, ast.Dict):
+        return of_dict(prods)
+    if not isinstance(prods, ast.Name):
+        return None
+    binds = [st for st in ast.walk(fn) if isinstance(st, ast.Assign) and any(isinstance(t, ast.Name) and t.id == prods.id for t in st.targets)]
+    if len(binds) != 1 or not isinstance(binds[0].value, ast.Dict):
+        return None
+    pairs = of_dict(binds[0].value)
+    for st in ast.walk(fn):
+        if isinstance(st, ast.Assign) and isinstance(st.targets[0], ast.Subscript) and isinstance(st.targets[0].value, ast.Name) and st.targets[0].value.id == prods.id:
+            k = st.targets[0].slice
+            if isinstance(k, ast.Constant):
+                pairs.append((k.value, st.value))
+                continue
+            par = m.parents.get(st)
+            if isinstance(k, ast.Name) and isinstance(par, ast.For) and isinstance(par.target, ast.Name) and par.target.id == k.id:
+                elts = resolve_collection(m, fn, par.iter)
+                if elts is not None and all(isinstance(e, ast.Constant) for e in elts):
+                    pairs.extend((e.value, st.value) for e in elts)
+                    continue
+            return None
+        if isinstance(st, ast.Call) and isinstance(st.func, ast.Attribute) and st.func.attr == 'update' and isinstance(st.func.value, ast.Name) and st.func.value.id == prods.id:
+            if len(st.args) == 1 and isinstance(st.args[0], ast.Dict):
+                pairs.extend(of_dict(st.args[0]))
+            else:
+                return None
+    return pairs
+
+
 def parse_sites(repo):
     """Yield (module, enclosing function, class name, call node) for every call
     of ``self._parse(...)`` (Base._parse)."""
@@ -80,11 +121,13 @@ def callbacks(repo):
         default = kw(call, 'default')
         if default is None and len(call.args) >= 5:
             default = call.args[4]
-        if isinstance(prods, ast.Dict):
-            for k, v in zip(prods.keys, prods.values):
-                key = k.value if isinstance(k, ast.Constant) else text(k)
+        pairs = production_pairs(m, fn, prods)
+        if pairs is not None:
+            for key, v in pairs:
                 tgt, tq = resolve(repo, m, fn, v, cls)
-                cbs.append(Callback(m.rel, q, key, v, tgt, tq))
+                cb = Callback(m.rel, q, key, v, tgt, tq)
+                cb.call = call
+                cbs.append(cb)
         elif text(prods) == 'new.productions':
             for cb in new_productions(repo, m):
                 cbs.append(cb)
@@ -92,7 +135,9 @@ def callbacks(repo):
             raise AnalysisError(f'{m.rel}:{q}: productions argument {text(prods)} not recognised')
         if default is not None:
             tgt, tq = resolve(repo, m, fn, default, cls)
-            cbs.append(Callback(m.rel, q, 'default', default, tgt, tq))
+            cb = Callback(m.rel, q, 'default', default, tgt, tq)
+            cb.call = call
+            cbs.append(cb)
     # default productions of Base / Base2
     um = repo.mod('cssutils/util.py')
     for cls in ('Base', 'Base2'):
